@@ -106,6 +106,17 @@ def chain_with_failing_reads(kind, n):
     return h + opens + closes
 
 
+def chain_with_failing_accepts(n):
+    """Accepts re-issued from their callbacks on a listener whose descriptor was replaced underneath (accept(2)
+    fails at once): immediate completions with an error, counted against the limit and counted back."""
+    h = [E("Reset", kinds=["lst"], cls="chain", lim=32, n=0), E("Env", api="yank", o=1, n=1)]
+    opens, closes = [], []
+    for i in range(1, n + 1):
+        opens += [E("Call", api="acceptbad", o=1, op=i, dir="R", n=1), E("CbB", op=i, err="errno", n=0)]
+        closes = [E("CbE", op=i), E("Ret", op=i)] + closes
+    return h + opens + closes
+
+
 def long_chains(tier):
     hs = []
     lens = [40] if tier == "quick" else [40, 100]
@@ -130,6 +141,10 @@ def long_chains(tier):
         hs.append(chain_with_failing_writes(k, 120))
     for n in (3, 120):
         hs.append(chain_with_failing_reads("pkt", n))
+    # (shorter than the limit: at the limit the accept would be deferred, and registering the replaced descriptor
+    # is refused - the uncounted inline error callback of the known regular-file finding, here behind an injected fault)
+    for n in (2, 25):
+        hs.append(chain_with_failing_accepts(n))
     return hs
 
 
